@@ -1093,8 +1093,29 @@ class Unit:
             i = sgb[x]
             prev = toks[sgb[x - 1]].text if x > 0 else "{"
             prev2 = toks[sgb[x - 2]].text if x > 1 else ""
-            if prev == ">" and prev2 == "=":
+            ax = x if (prev == ">" and prev2 == "=") else None
+            if ax is None:
+                # is the anchor inside a brace-less match arm expression (`pat => <..anchor..>,`)?  walk back at depth 0
+                depth, y = 0, x
+                while y > 0:
+                    pt = toks[sgb[y - 1]]
+                    if pt.kind == "punct":
+                        if pt.text in ")]}":
+                            depth += 1
+                        elif pt.text in "([{":
+                            if depth == 0:
+                                break
+                            depth -= 1
+                        elif pt.text in (";", ",") and depth == 0:
+                            break
+                        elif pt.text == ">" and depth == 0 and y > 1 and toks[sgb[y - 2]].text == "=":
+                            ax = y
+                            break
+                    y -= 1
+            if ax is not None:
                 # match arm expression: brace it
+                x = ax
+                i = sgb[x]
                 depth = 0
                 e = None
                 for j in sgb[x:]:
@@ -1310,6 +1331,10 @@ class Unit:
         # termination of exec code is not among the properties: a loop without a `decreases` clause (e.g. one added by
         # a later change) must not make the unit undecidable; loops that do carry a decreases clause are still checked
         self.out.emit("#[verifier::exec_allows_no_decreases_clause]\n", ("gen", "attr"))
+        # loops are verified in the context of their function: what was established before a loop (a local introduced by
+        # a refactoring) and what holds at a `break` (`while c {..}` rewritten as `loop { if !c { break } .. }`) is
+        # available without the invariant having to name it -- the invariants talk about the abstraction only
+        self.out.emit("#[verifier::loop_isolation(false)]\n", ("gen", "attr"))
         first = len(self.out.lines)
         render(self.out, rf, start, it["end"], edits)
         self.out.nl()
